@@ -36,6 +36,9 @@ var c02Facts = []string{
 	`{"k!":"v"}`,
 	`{"k":"LONG"}`,
 	`{"k":"w","j":"u","n":"v"}`,
+	// one string under two properties: overwriting this fact by {"j":"v"} (or the
+	// reverse) changes one property and keeps the other, with the same term in both
+	`{"k":"v","j":"v"}`,
 }
 
 var c02Patterns = []string{
@@ -51,6 +54,7 @@ var c02Patterns = []string{
 	`{"k":1}`,
 	`{"k":true}`,
 	`{"j":null}`,
+	`{"j":"v"}`,
 	`{"k!":"?x"}`,
 	`{"k":"LONG"}`,
 	`{"rule":"?r"}`,
